@@ -97,8 +97,13 @@ type hubRec struct {
 	seen map[string]int
 }
 
-func (h *hubRec) hook(sb blob.SizedRef) error { h.mu.Lock(); h.seen[sb.Ref.String()]++; h.mu.Unlock(); return nil }
-func (h *hubRec) count(r string) int          { h.mu.Lock(); defer h.mu.Unlock(); return h.seen[r] }
+func (h *hubRec) hook(sb blob.SizedRef) error {
+	h.mu.Lock()
+	h.seen[sb.Ref.String()]++
+	h.mu.Unlock()
+	return nil
+}
+func (h *hubRec) count(r string) int { h.mu.Lock(); defer h.mu.Unlock(); return h.seen[r] }
 
 type cfgSto struct {
 	blobserver.Storage
